@@ -133,7 +133,27 @@ def spec_namespace(env, extra=None):
                 continue
         return False
 
+    def _eq(a, b):
+        """== of the clause language on concrete values: exact, except floats/arrays (A-float: 1e-9 relative tolerance)"""
+        try:
+            import numpy as _np
+
+            if isinstance(a, (float, _np.floating, _np.ndarray)) or isinstance(b, (float, _np.floating, _np.ndarray)):
+                aa, bb = _np.asarray(a, dtype=float), _np.asarray(b, dtype=float)
+                if aa.shape != bb.shape:
+                    return False
+                scale_ = max(1.0, float(_np.nanmax(_np.abs(aa))) if aa.size else 1.0, float(_np.nanmax(_np.abs(bb))) if bb.size else 1.0)
+                return bool(_np.allclose(aa, bb, rtol=1e-9, atol=1e-9 * scale_, equal_nan=True))
+        except (TypeError, ValueError):
+            pass
+        r = a == b
+        try:
+            return bool(r)
+        except (TypeError, ValueError):
+            return bool(getattr(r, "all", lambda: r)())
+
     ns = _Ns()
+    ns["_eq"] = _eq
     ns.update({
         "forall": forall, "exists": exists,
         "implies": lambda a, b: (not a) or b,
@@ -154,6 +174,13 @@ import ast as _ast
 class _Lazify(_ast.NodeTransformer):
     """implies(a, b) -> ((not a) or b), ite(c, a, b) -> (a if c else b): python evaluates call arguments eagerly,
     the clause language does not."""
+
+    def visit_Compare(self, node):
+        self.generic_visit(node)
+        if len(node.ops) == 1 and isinstance(node.ops[0], (_ast.Eq, _ast.NotEq)):
+            call = _ast.Call(func=_ast.Name(id="_eq", ctx=_ast.Load()), args=[node.left, node.comparators[0]], keywords=[])
+            return call if isinstance(node.ops[0], _ast.Eq) else _ast.UnaryOp(op=_ast.Not(), operand=call)
+        return node
 
     def visit_Call(self, node):
         self.generic_visit(node)
@@ -195,6 +222,8 @@ def conforms(value, spec):
     from .types import TBool, TDict, TInt, TReal, TSeq, TSet, TStr, Ty, parse_ty
     from collections.abc import Mapping
 
+    if isinstance(spec, dict) and spec.get("__class__") == "StrKeyDict":
+        return isinstance(value, dict) and set(value) == set(spec) - {"__class__"}
     if isinstance(spec, dict):
         return True
     ty = parse_ty(spec) if isinstance(spec, str) else spec
@@ -234,6 +263,9 @@ def resolve(contract):
         name = f"_{owner.__name__}{name}"
     raw = inspect.getattr_static(owner, name)
     fn = raw
+    disp = getattr(raw, "__wrapped__", None)
+    if disp is not None and hasattr(disp, "registry") and object in disp.registry:
+        return owner, name, ("singledispatch", disp), disp.registry[object]
     if isinstance(raw, property):
         fn = raw.fget
     elif isinstance(raw, functools.cached_property):
@@ -259,8 +291,16 @@ class Monitor:
             if r is None:
                 continue
             owner, name, raw, fn = r
-            st = self.stats.setdefault(c.target, dict(calls=0, pre_ok=0, post_checked=0, not_evaluable=0, raised=0))
+            st = self.stats.setdefault(c.target + (f"[{c.label}]" if getattr(c, "label", None) else ""), dict(calls=0, pre_ok=0, post_checked=0, not_evaluable=0, raised=0))
+            # (variants of one target wrap each other: each checks the calls that fall inside its own variant)
+            for po, pn, praw in self.patched:
+                if isinstance(po, tuple) and isinstance(raw, tuple) and po[1] is raw[1]:
+                    fn = raw[1].registry[object]
             w = self._wrap(c, fn, st)
+            if isinstance(raw, tuple) and raw[0] == "singledispatch":
+                raw[1].register(object, w)
+                self.patched.append((("singledispatch", raw[1]), name, fn))
+                continue
             if isinstance(raw, property):
                 new = property(w, raw.fset, raw.fdel)
             elif isinstance(raw, functools.cached_property):
@@ -278,6 +318,9 @@ class Monitor:
 
     def __exit__(self, *a):
         for owner, name, raw in reversed(self.patched):
+            if isinstance(owner, tuple) and owner[0] == "singledispatch":
+                owner[1].register(object, raw)
+                continue
             setattr(owner, name, raw)
         self.patched = []
         return False
